@@ -15,3 +15,9 @@ Fixpoint flat (v : json) : list Z :=
   end.
 Definition run_parse (s : str) : list Z := match parse s with Some v => 1 :: flat v | None => [0] end.
 Definition run_print (v : json) : str := print v.
+
+(* ---- XML character data (XmlText.v) ---- *)
+From EP Require Import C17.XmlText.
+Definition oz (o : option (list Z)) : list Z := match o with Some l => 1 :: l | None => [0] end.
+Definition run_xml_esc (cr_ref pad : bool) (s : list Z) : list Z * list Z := (esc_text cr_ref s, esc_attr pad s).
+Definition run_xml_read (l : list Z) : list Z * list Z := (oz (read_text l), oz (read_attr l)).
